@@ -63,6 +63,17 @@ def readCall (cls : List Nat → Kind) (s : RSt) : RSt × ROut := read cls (s.pe
 def cancel (s : RSt) (k : Nat) : RSt :=
   { s with stash := s.stash ++ s.pending.take k, pending := s.pending.drop k }
 
+/-- a pending `Read` whose context is cancelled at the instant the next bytes come in (the stop of a relay direction racing
+a line from the peer): a line those bytes completed has already been taken out of the socket by `ReadBytes`, so it is
+handed out as usual — returned, refused, or skipped, after which the loop sees the cancellation; when no line is complete
+the call returns the cancellation and what was collected goes to the stash.  `none` = the call returned the cancellation. -/
+def readCancelled (cls : List Nat → Kind) (s : RSt) : RSt × Option ROut :=
+  match takeLine s.pending with
+  | none => (cancel s s.pending.length, none)
+  | some _ =>
+    let r := read cls 1 s
+    (r.1, match r.2 with | .blocked => none | o => some o)
+
 /-! ### write side -/
 
 structure WSt where
